@@ -109,7 +109,7 @@ func transform(source string, mappings map[string]string, expandMode bool) strin
 			sym := string(ch)
 			if keyword, ok := mappings[sym]; ok {
 				// Check context - only transform at statement start or after certain tokens
-				if shouldTransformSymbol(source, i, sym) {
+				if shouldTransformSymbol(source, i, sym) && !startsTwoCharOperator(source, i) {
 					result.WriteString(keyword)
 					// Add space after keyword if next char is not whitespace/newline
 					if i+1 < n && !unicode.IsSpace(rune(source[i+1])) && source[i+1] != '{' {
@@ -157,6 +157,19 @@ func transform(source string, mappings map[string]string, expandMode bool) strin
 	}
 
 	return result.String()
+}
+
+// startsTwoCharOperator reports whether the symbol at pos is the first half of a
+// two-character operator token (>=, <=, !=, ==, =>, &&) rather than a statement sigil
+func startsTwoCharOperator(source string, pos int) bool {
+	if pos+1 >= len(source) {
+		return false
+	}
+	switch source[pos : pos+2] {
+	case ">=", "<=", "!=", "==", "=>", "&&":
+		return true
+	}
+	return false
 }
 
 // shouldTransformSymbol checks if a symbol should be transformed based on context
